@@ -18,6 +18,10 @@ CLAIMS = {
             "Decides for EVERY test of NO_UNKNOWN_OPS / CANONICAL_INTS / DISABLE_OP / LIMIT_SOFTFORK / LIMITS in the library that the flag can only reject, that RELAXED_BLS only removes validation, that MEMPOOL_MODE is made of restriction flags, and that no caller turns a flag-caused error into a success. One audited exception (uint_atom) and one known finding (softfork argument errors swallowed in lenient mode).",
             "Trusts rustc's MIR and the purity whitelist of callee names used inside conditions; LIMIT_HEAP is a caller-chosen allocator parameter (monotone by C13).",
             "DESIGN.md 4/C07"),
+    "C09": ("dominance / ordering rules inside op_unknown, checked-arithmetic rule on the multiplier, constant-set comparison with sibling operators, who-may-call + flag-region routing rule",
+            "Decides the structural clauses of the unknown-operator rule: rejection order (reserved first), 4-byte multiplier cap, selector bits, base compared with the budget before multiplying, overflow-checked multiplication in BOTH cost models, 32-bit cap dominating the only Ok(nil), sibling cost constants, and that op_unknown is reachable only through the lenient unknown-operator paths with unchanged arguments. Known finding: classic model uses wrapping_mul.",
+            "Trusts rustc's MIR; the numeric value of the add/mul/concat-like formulas is not decided (only which constants they read).",
+            "DESIGN.md 4/C09"),
     "C12": ("path-sensitive effect counting over MIR (forward dataflow, T3) + field-matched checkpoint tables",
             "Decides a structural necessary condition on ALL paths of ALL allocation entry points: per successful path exactly one atom / one heap contribution / one pair, none on failing paths; restore field coverage; reporters. Not the arithmetic of sizes.",
             "Trusts rustc's MIR and the effect recogniser (Vec method names, ghost counter field names resolved by type); bulk append loop tied to the checked size by C13. Known finding: new_substr small-integer slice counted on the heap.",
